@@ -62,6 +62,10 @@ fn ev_listing(dir: &Path) -> serde_json::Value {
     let mut v: Vec<(String, i64)> = Vec::new();
     if let Ok(rd) = std::fs::read_dir(dir) {
         for e in rd.flatten() {
+            match std::fs::metadata(e.path()) {
+                Ok(m) if m.is_file() => {}
+                _ => continue,   // only regular files are listed
+            }
             let n = match std::fs::read(e.path()) {
                 Ok(bytes) => match serde_json::from_slice::<serde_json::Value>(&bytes) {
                     Ok(serde_json::Value::Array(a)) => a.len() as i64,
@@ -138,7 +142,19 @@ fn main() {
                     std::fs::create_dir_all(&cur).unwrap();
                     serde_json::json!("ok")
                 }
-                "put" => {
+                    "symlink" => {
+                    // foreign entry that cannot be stat()-ed: dangling link, or a loop (target = own name)
+                    let _ = std::os::unix::fs::symlink(p[2], cur.join(p[1]));
+                    serde_json::json!("ok")
+                }
+                "mkdir" => {
+                    use std::os::unix::fs::PermissionsExt;
+                    let d = cur.join(p[1]);
+                    let _ = std::fs::create_dir_all(&d);
+                    let _ = std::fs::set_permissions(&d, std::fs::Permissions::from_mode(u32::from_str_radix(p[2], 8).unwrap()));
+                    serde_json::json!("ok")
+                }
+            "put" => {
                     let size: usize = p[2].parse().unwrap();
                     std::fs::write(cur.join(p[1]), vec![b'p'; size]).unwrap();
                     serde_json::json!("ok")
